@@ -854,10 +854,12 @@ def c20(ctx):
     hist = 40 if ctx.tier == "quick" else 400
     for mp in (1, 4, 16):
         path = os.path.join(ctx.work, "registry_trace.ndjson")
-        _, races = run_race(ctx, ["registry-trace", "-n", str(hist), "-g", "4", "-ops", "6", "-o", path], mp, "registry")
+        if os.path.exists(path):
+            os.remove(path)
+        summ0, races = run_race(ctx, ["registry-trace", "-n", str(hist), "-g", "4", "-ops", "6", "-o", path], mp, "registry")
         race_violation("registry histories, GOMAXPROCS=%d" % mp, races)
-        if not os.path.exists(path):
-            continue
+        if not os.path.exists(path) or any("fatal error" in rc.get("report", "") for rc in races):
+            continue  # the harness died (deadlock watchdog / runtime fatal error): reported above, no complete trace
         lines = open(path).read().splitlines()
         bad = ctx.tlc_trace("RegistryTrace.tla", "RegistryTrace.cfg", path, "registry_trace.ndjson", histories=hist,
                             label="linearizability of %d registry histories, GOMAXPROCS=%d" % (hist, mp))
